@@ -11,6 +11,7 @@ type HistoryOpts struct {
 	Len        int
 	Versions   int  // chart versions available
 	MaxHistory bool // use history limits
+	Failures   bool // some ops carry Inject (deliberately failing ops, to put failed revisions into histories)
 	Atomic     bool
 	Uninstall  bool
 }
@@ -77,6 +78,9 @@ func NewHistory(rng *rand.Rand, o HistoryOpts) []env.Op {
 			}
 		}
 		op.NoHooks = rng.Intn(4) == 0
+		if o.Failures && op.Kind != "uninstall" && rng.Intn(100) < 18 {
+			op.Inject = []string{"wait", "mut"}[rng.Intn(2)]
+		}
 		ops = append(ops, op)
 	}
 	return ops
